@@ -16,7 +16,11 @@ CLAIMED = {
         text="Theorem C14_no_writer_reachable (Props/C14.v): on the call graph regenerated from /repo at every run, no read-only API "
              "entry point reaches (by name-resolved, arity-filtered call edges: an over-approximation) a function whose body mutates a "
              "store; finite graph, boolean closure check evaluated by vm_compute and lifted by a soundness lemma. In the model every "
-             "query is a function traph -> answer (no state returned). The run also compares the bytes of both stores and the recorded "
+             "query is a function traph -> answer (no state returned). Props/C14s.v, semantically, on the read requests translated from the source on "
+             "every run (page links, link enumeration, webentity pages, potential prefix, both networks, page-link / neighbour queries, both "
+             "paginated requests, hierarchy, metrics, most linked): for every history, whenever the translated request returns, the bytes of the "
+             "trie store are those before the call (the link store is only read through positioned reads and not returned). "
+             "The run also compares the bytes of both stores and the recorded "
              "storage writes before/after every read request on the real implementation (file and memory back-ends).",
         note=NOTE_COMMON + "Specific: the translator gen_callgraph.py (closed lists of read-only roots and of store-mutating primitives; "
              "getattr/eval dispatch rejected). Partial for: dispatch that the AST cannot see (none in the package today; the dynamic "
